@@ -273,17 +273,16 @@ def lean_measure(drv, name, x, y):
     if name in ("tschuprowt_measure", "cramerv_measure"):
         keep = [i for i in range(len(x)) if not _missing(x[i]) and not _missing(y[i])]
         xx, yy = [x[i] for i in keep], [y[i] for i in keep]
-        xs, ys = sorted(set(xx), key=str), sorted(set(yy), key=str)
-        tab = [[0] * len(ys) for _ in xs]
-        for a, b in zip(xx, yy):
-            tab[xs.index(a)][ys.index(b)] += 1
-        r = drv.call({"op": "measure.exact", "kind": "chi2", "table": tab})
+        if len({str(v) for v in xx}) != len(set(xx)) or len({str(v) for v in yy}) != len(set(yy)):
+            return None          # two categories with the same string form (1 and '1'): not a case for the string model
+        # the model builds the contingency table itself (Measures.contingency), from the two columns as strings
+        r = drv.call({"op": "measure.exact", "kind": "chi2data", "xs": [str(v) for v in xx], "ys": [str(v) for v in yy]})
         if r["chi2"] is None:
             return float("nan")
-        chi2, n = F(r["chi2"]), len(xx)
+        chi2, n, nr, nc = F(r["chi2"]), len(xx), r["r"], r["c"]
         if name == "cramerv_measure":
-            return math.sqrt(float(chi2 / n / (min(len(xs), len(ys)) - 1))) if min(len(xs), len(ys)) > 1 else float("nan")
-        d = math.sqrt((len(xs) - 1) * (len(ys) - 1))
+            return math.sqrt(float(chi2 / n / (min(nr, nc) - 1))) if min(nr, nc) > 1 else float("nan")
+        d = math.sqrt((nr - 1) * (nc - 1))
         return math.sqrt(float(chi2 / n) / d) if d > 0 else 0.0
     return None
 
